@@ -220,6 +220,47 @@ theorem C16.forward_nd_eq_reference (mode : Mode) (c : K) (sIn sOut offs : List 
     resizeAxes mode .forward c 0 sIn sOut offs X idx = refAxes mode c 0 sIn sOut offs X idx :=
   fwd_axes_eq_ref mode c sIn sOut offs [] X X h (fun _ _ => rfl) idx (by simpa [Pref] using hidx)
 
+/-- **The identity resize returns the values unchanged** (one axis): same length, ANY offset,
+every mode, both directions, every `pad_const` the direction accepts, all contents — the
+invariant behind the identity-resize stratum of the ownership stream. -/
+theorem C16.identity_resize (mode : Mode) (dir : Dir) (n off : Nat) (c : K) (x : Nat → K)
+    (hc : dir = .adjoint → mode = .constant → c = 0) :
+    ∃ r, resize1d mode dir n n off c x = .ok r ∧ ∀ i < n, r i = x i := by
+  refine ⟨_, (ok_iff ..).2 ⟨?_, rfl⟩, fun i hi => core_same mode dir n off c x i hi⟩
+  cases dir
+  · exact ((C16.guards_are_documented_limits mode n n off c).1).2
+      ⟨fun h => absurd rfl h, fun h => absurd h (lt_irrefl n)⟩
+  · unfold check
+    by_cases hm : mode = .constant
+    · have := hc rfl hm
+      simp [hm, this]
+    · simp [hm]
+
+/-- **… and for any number of axes** (forward direction, the code's axis order): resizing to the
+same shape with arbitrary offsets is the identity on the whole box. -/
+theorem C16.identity_resize_nd (mode : Mode) (c : K) (s offs : List Nat) (hl : s.length = offs.length)
+    (X : List Nat → K) (idx : List Nat) (hidx : ∀ k < s.length, idx.getD k 0 < s.getD k 0) :
+    resizeAxes mode .forward c 0 s s offs X idx = X idx := by
+  rw [C16.forward_nd_eq_reference mode c s s offs (admND_same mode s offs hl) X idx hidx,
+    refAxes_same]
+
+/-- non-vacuity: an order1 "resize" 3 → 3 with offset 2 and a 2 × 2 one with offsets (1, 3) -/
+example : ∃ r, resize1d .order1 .adjoint 3 3 2 (0 : Int) (fun i => [4, 5, 6].getD i 0) = .ok r ∧
+    (List.range 3).map r = [4, 5, 6] := ⟨_, rfl, by decide⟩
+example : resizeAxes .symmetric .forward (0 : Int) 0 [2, 2] [2, 2] [1, 3]
+    (fun idx => (10 * idx.getD 0 0 + idx.getD 1 0 : Nat)) [1, 0] = 10 := by decide
+
+/-- **An offset out of range in ANY axis refuses the n-d call** (`offsetsBad`), whatever the other
+axes, the mode, the direction and `pad_const`: `resizeND` answers `err offset` before any other
+check, as the range check of `resize_array` does. -/
+theorem C16.nd_offset_refused (mode : Mode) (dir : Dir) (c : K) (sIn sOut offs : List Nat)
+    (A : List Nat → K) (h : offsetsBad sIn sOut offs = true) :
+    resizeND mode dir sIn sOut offs c A = .error .offset := by
+  simp [resizeND, checkND, h]
+
+example : resizeND .periodic .forward [3, 2] [5, 4] [1, 3] (0 : Int) (fun _ => 1) = .error .offset :=
+  C16.nd_offset_refused _ _ _ _ _ _ _ (by decide)
+
 /-- The per-axis part of the n-d argument check accepts iff every axis is admissible. -/
 theorem C16.nd_axes_accept_iff (mode : Mode) (c : K) :
     ∀ (sIn sOut offs : List Nat), sIn.length = sOut.length → sIn.length = offs.length →
